@@ -190,6 +190,11 @@ def run(ctx):
     n_punct = max(40, n_synth // 4)
     synth += [(englib.SYNTH_PUNCT[i % 2], englib.gen_edit_history(rng, length())) for i in range(n_punct)]
     synth += [(s, b) for s in englib.SYNTH_PUNCT for b in boundary]
+    # round 4: ascii_composer / ascii_segmentor at their stock positions (synth_acedit_*: a chain of the theorem; synth_ascii_* and
+    # synth_kb_*: with the key binder as well - none of its bindings accepts a key of the alphabet)
+    synth += [(englib.SYNTH_ACEDIT[i % 2], englib.gen_edit_history(rng, length())) for i in range(n_punct)]
+    synth += [(s, b) for s in englib.SYNTH_ACEDIT for b in boundary]
+    synth += [((englib.SYNTH_ASCII + englib.SYNTH_KB)[i % 4], englib.gen_edit_history(rng, length())) for i in range(n_punct)]
     ctx.coverage["punct_chain_histories"] = n_punct + 2 * len(boundary)
     stock = [(englib.STOCK[i % 4], englib.gen_edit_history(rng, length())) for i in range(n_stock)]
     stock += [(s, b) for s in englib.STOCK for b in boundary]
@@ -302,7 +307,7 @@ def run(ctx):
                 "whose observation (handled, input, caret, pending commit) is compared with the buffer spec; non-trivial = the key "
                 "acted on an input of >= 8 bytes with the caret strictly inside",
         "samples": samples, "distribution": dict(stats), "key_classes": dict(keyc),
-        "schemas": englib.SYNTH + englib.STOCK, "correspondence_mismatches": len(mism),
+        "schemas": englib.SYNTH + englib.SYNTH_PUNCT + englib.SYNTH_ACEDIT + englib.SYNTH_ASCII + englib.SYNTH_KB + englib.STOCK, "correspondence_mismatches": len(mism),
         "oracle_failures_on_impl": len(fail), "exhaustive": False, "mutation_drills": MUTATION_DRILLS,
     })
 
